@@ -174,7 +174,7 @@ def run(ctx):
             if not r["ok"]:
                 raise core.Infra("bounded extraction design violates %s" % r["violated"])
             ctx.add_model(r, "Extract.tla", cfg, ["WritesInBounds"])
-            shapes = tlc.leaves(r["out"])
+            shapes = sorted(tlc.leaves(r["out"]), key=lambda x: __import__("json").dumps(x, sort_keys=True))
         elif r["ok"]:
             raise core.Infra("%s violates nothing: WritesInBounds is vacuous" % cfg)
         else:
